@@ -85,3 +85,12 @@ Theorem C19_writer_in_bounds : forall (alloc_ok : nat -> bool) (BUF : N) cs w w'
   write_all alloc_ok BUF w cs = Ok w' -> (len (w_data w') <= w_size w')%N.
 Proof. exact write_all_fits. Qed.
 Print Assumptions C19_writer_in_bounds.
+
+(** Tie to the source: the constructor these theorems start from is the one yarl/_url.py
+    defines - encode_url is re-translated from the working tree on every run and builds the
+    model's URL value on every input (statement and trusted base: C07_source_encode_url). *)
+From Yarl Require Import Model.Url Model.GenTypes Generated.UrlGen Proofs.GenUrlProofs.
+Theorem C19_source_encode_url : forall (O : oracles) (B : backend) (s : str),
+  same_outcome (gen_encode_url O B s) (encode_url O B s).
+Proof. exact gen_encode_url_ok. Qed.
+Print Assumptions C19_source_encode_url.
